@@ -116,12 +116,13 @@ CLAIMED.update({
             TB + " Provenance and aliasing are represented by addresses and allocation bounds only.", "DESIGN §7 C03"),
 })
 CLAIMED.update({
-    'C20': ("Rocq theorems on a character-level model of src/fmt.rs + differential correspondence on the formatted strings with direct row-structure oracles",
-            "PARTIAL. Proved on the model (every coherent matrix, every shape incl. degenerate ones, both orders, every rendering function: any width, any number of lines): Display and Debug never panic - the per-element "
-            "line cache is only indexed inside its bounds - and element-less matrices print \"[]\". Decided by correspondence + direct oracles (not by a theorem): the exact strings of Display and Debug equal the "
-            "model's for every shape <= 4x4 in both orders over a table of renderings (empty, multi-byte, multi-line, CRLF, trailing newline, wide); one bracketed line per row, equal character widths, column order, "
-            "Display equality across storage orders, Debug labels = memory positions, row/column numbers. Feature configurations: the harness is built with the crate's default features; the colour path is modelled as "
-            "'not supported by the stream' (output piped), the no-default/full builds are not separately run.",
-            TB + " char-width = one column per code point (the crate counts chars); owo-colors/supports-color behaviour on a non-tty is observed, not proved.", "DESIGN §7 C20"),
+    'C20': ("Rocq theorems on a character-level model of src/fmt.rs (cache abstraction: lines consumed per logical position) + differential correspondence on the formatted strings in three feature builds",
+            "Proved on the model (every coherent matrix, every shape incl. degenerate ones, both orders, every rendering function: any width, any number of lines): Display and Debug never panic - the per-element "
+            "line cache is only indexed inside its bounds; element-less matrices print \"[]\"; otherwise the text equals display_text / debug_text, a pure fold over rows, lines and columns of the k-th line of the element "
+            "at each logical position (each element's k-th line printed exactly once, in row then column order), so Display is identical for equal matrices in different storage orders; for single-line renderings Display is "
+            "one bracketed line per logical row, cells in column order, all lines equally wide; Debug labels each cell with flat(row, col) = its position in the element store and numbers rows and columns. "
+            "Correspondence + direct oracles: the exact strings of Display and Debug equal the model's for every shape <= 4x4 in both orders over a table of renderings (empty, multi-byte, multi-line, CRLF, trailing newline, wide) "
+            "in the crate's three feature configurations (default, no default features, full with the colour feature writing to a pipe).",
+            TB + " str::lines, `{:w$}` padding (one column per char) and usize printing are modelled std behaviour; owo-colors/supports-color on a non-terminal is observed, not proved; colours-supported output is out of scope of the property.", "DESIGN §7 C20"),
 })
 NOT_APPLICABLE = {}
